@@ -7,7 +7,13 @@ R1 operator duality: `Hardware.__add__`/`__sub__` return `Hardware(cores, memory
    `Storage.__add__`/`__sub__` combine `size` with the same operator (self first), keep the mount point, unite
    `paths`, and both refuse different mount points before returning; `_reduce_storages` calls
    `operator(accumulated, disk)` in that argument order on the "already present" branch only and copies
-   `disk.size` on the "first seen" branch.
+   `disk.size` on the "first seen" branch.  The clause is quantified over *every* result of the operators (all
+   returns, bare returns and fall-through, enumerated on the CFG): a result that is not such a construction is
+   reported against the clause, never refused.  The only accepted shortcut is an operand returned unchanged
+   (`X`, `X.normalized()`, a copy; for `__sub__` only the minuend) on paths the dropped operand can take only when
+   its cores, memory *and* storage are empty -- decided per field by folding the guards under the witness
+   "dropped.field is a positive amount" and requiring the shortcut return to be unreachable (a fast path whose
+   emptiness test forgets the storage makes (a + r) - r != a for a storage-only r).
 R2 comparison direction: `satisfies` may return a true value only when `self.cores >= other.cores` and
    `self.memory >= other.memory` (operators `>=`, guard table folded on the CFG); the storage clause is
    `all(...)` over every disk of *other's* normalised storage, comparing the size of *self's* normalised disk
@@ -18,6 +24,10 @@ R3 normal form: `_normalize_storage` reduces `self.storage.values()` with `Stora
    `is_normalized` is `all(key == disk.mount_point)` over `self.storage.items()`; no arithmetic/comparison
    method of `Hardware` (enumerated through the class table, merge operators `__or__/__ior__` excepted) reads
    `.storage` of an operand without normalising it.
+
+Not decided (reported as violations rather than interpreted): a shortcut whose emptiness test uses a formulation the
+guard folding does not know (anything but truthiness / comparison with 0 / len() / `any(d.size ...)` over the
+operand's normalised storage, possibly through temporaries) is reported although it may be behaviour-preserving.
 
 Left out: the algebraic laws over fractional values (need symbolic evaluation) and `__or__/__ior__` semantics
 (documented by the class as key-preserving merge, not part of the property).
@@ -735,7 +745,7 @@ def _reduce_facts(ctx, f):
 
 
 RULES = [("R1", r1), ("R2", r2), ("R3", r3)]
-FLOORS = {"R1": 21, "R2": 9, "R3": 12}
+FLOORS = {"R1": 23, "R2": 9, "R3": 12}
 
 HADD, HSUB, SAT = f"{HW}.__add__", f"{HW}.__sub__", f"{HW}.satisfies"
 SADD, SSUB = f"{ST}.__add__", f"{ST}.__sub__"
